@@ -9,6 +9,9 @@ Binding B: every built-in gas profile for every layer count 2..120 (clauses vali
 Settings:  spec/MC_ChemistrySettings.tla -- ONE long-lived chemistry, settings written through the public
            fitting parameters ('<gas>_<main gas>' ratios with up to four fill gases, every gas's own parameters)
            between evaluations; TLC exports write/eval behaviours with the exact mixture after every evaluation.
+Names:     spec/MC_MolMass.tla -- the formula read character by character; processes of chemistry objects whose gas
+           names coincide under a lossy key (harness/fx_chemdims.py).
+Power law: spec/MC_PowerLaw.tla -- which control values are supplied / tabulated, by which route (fx_chemdims.py).
 Binding C: spec/Functional.tla walks (harness/history.py, harness/fx_chemhistory.py): one long-lived gas of every
            built-in profile type / one TaurexChemistry re-initialised after a change of a fitting parameter, the
            layer count, the pressure grid, the temperature profile; every evaluation must equal a fresh object's.
@@ -335,6 +338,40 @@ def run_settings_vectors(ctx, vecs, seed=None):
     clear_available()
     for v in vecs:
         run_settings_vector(ctx, v, rng)
+
+
+def run_dimensions(ctx):
+    """round 3: WHICH gases are in the mixture / what the process was asked before (spec/MC_MolMass.tla) and WHICH
+    control values of the power law the user supplied, by which route (spec/MC_PowerLaw.tla)"""
+    from .. import fx_chemdims as fxd
+    q = ctx.tier == 'quick'
+    for variant in (('casefold',) if q else ('casefold', 'anagram', 'nodigits', 'prefix2')):
+        ctx.expect_refuted('refute-memo-' + variant, 'MC_MolMass', 'RF_MolMass_%s.cfg' % variant, 'AnswerIsOfAskedFormula')
+    res = ctx.check_spec('export-names', 'MC_MolMass', 'EX_MolMass_%s.cfg' % ctx.tier, workers=1, need_actions=('Build',))
+    mv = dedupe(res.tagged('MVEC'))
+    if len(mv) < 50 or not any(len(v['objs']) > 1 and 'casefold' in v['keys'] for v in mv) or \
+            not any(len(v['objs']) == 1 and len(v['objs'][0]['names']) == 2 for v in mv) or \
+            {k for v in mv for k in v['keys']} != {'casefold', 'anagram', 'nodigits', 'prefix2'}:
+        raise Machinery('only %d name behaviours exported / a class of colliding names is missing' % len(mv))
+    clear_available()
+    n = fxd.run_names_vectors(ctx, mv, [indep_mass('H2'), indep_mass('He')])
+    ctx.traces += n
+    ctx.note('processes of chemistry objects whose gas names coincide under a lossy key (case, anagram, counts, prefix) replayed: %d' % n)
+    refute = [('all_or_nothing', 'AtMostDeepValue')]
+    if not q:
+        refute += [('table_wins', 'ControlValuesInForce'), ('ctor_only', 'ControlValuesInForce')]
+    for variant, inv in refute:
+        ctx.expect_refuted('refute-powerlaw-' + variant, 'MC_PowerLaw', 'RF_PowerLaw_%s.cfg' % variant, inv)
+    res = ctx.check_spec('export-powerlaw', 'MC_PowerLaw', 'EX_PowerLaw_%s.cfg' % ctx.tier, workers=1, need_actions=('Write', 'Eval'))
+    pv = dedupe(res.tagged('PVEC'))
+    partial_s = lambda e: e['op'] == 'eval' and e['st'] == 'ok' and e['eff']['s']['src'] == 'user' and \
+        all(e['eff'][c]['src'] == 'table' for c in 'abg')
+    if len(pv) < 1000 or not any(partial_s(e) for v in pv for e in v['log']) or \
+            not any(e['op'] == 'eval' and e['st'] == 'rejected' for v in pv for e in v['log'][:-1]):
+        raise Machinery('only %d power-law behaviours exported / no partial override / no rejected-then-valid history' % len(pv))
+    n = fxd.run_power_vectors(ctx, pv)
+    ctx.traces += n
+    ctx.note('power-law behaviours (control values supplied / tabulated, written by every route, evaluations in between) replayed: %d' % n)
 
 
 def run_histories(ctx, nwalks):
@@ -729,6 +766,8 @@ def run(ctx):
                       exhaustive_profiles='layer counts 2..%d on the decade grid, smoothing windows 0..300%%, constant/two-point/two-layer/array' % (8 if q else 14),
                       layer_counts='binding B: every n in 2..30%s' % (' + 24 seeded counts of 31..120' if q else ' and 31..120'),
                       settings='2..4 fill gases (1..3 ratio parameters), 0..2 trace gases, <=%d writes through the fitting parameters with evaluations in between' % (2 if q else 3),
+                      names='processes of <=%d chemistry objects over 23 formulae that coincide pairwise under case folding / anagram / dropped counts / 2-character prefix' % (2 if q else 3),
+                      powerlaw='every subset of the four control values supplied (2 values each, both sides of the table), known / unknown species, <=%d later writes by fitting parameter / item / property, evaluations in between' % (1 if q else 2),
                       histories='Functional.tla walks (depth 9, 3 settings x 3 values) over 17 gas scenarios and 7 chemistry scenarios')
     ctx.assumptions = ['element weight table (taurex.util.util.mass) is input data; parsing, summation and weighting are re-done independently',
                        'float 10**k and log10 are exact to 1e-12 on the integer decade grid',
@@ -776,6 +815,7 @@ def run(ctx):
     run_settings_vectors(ctx, sv)
     ctx.traces += len(sv)
     ctx.note('settings behaviours (write/eval on one long-lived chemistry) replayed: %d' % len(sv))
+    run_dimensions(ctx)
     res = ctx.check_spec('export-profiles', 'MC_GasProfile', 'EX_GasProfile_%s.cfg' % ctx.tier, workers=1)
     pv = dedupe(res.tagged('VEC'))
     if len(pv) < 500:
@@ -829,6 +869,14 @@ def replay(ctx, violations):
                 fx.replay(ctx, viol, ctx.tier)
             finally:
                 clear_available()
+        elif v.get('kind') in ('names', 'powerlaw'):
+            from .. import fx_chemdims as fxd
+            clear_available()
+            raw = {k: w for k, w in v.items() if k not in ('kind', 'at', 'mol', 'ptype', 'route', 'host', 'grids')}
+            if v['kind'] == 'names':
+                fxd.run_names_vectors(ctx, [raw], [indep_mass('H2'), indep_mass('He')])
+            else:
+                fxd.run_power_vectors(ctx, [raw])
         elif v.get('kind') == 'settings':
             class _Fixed:
                 def __init__(self, kinds, route):
